@@ -80,6 +80,10 @@ struct Since {
     deleted_maps: BTreeSet<String>,
     /// `[format]` of Veryl.toml changed
     format_changed: bool,
+    /// a `[build]` option changed (the cache key changes, every entry is dropped) ...
+    opts_changed: bool,
+    /// ... and then a `check` re-created entries under the new key without emitting
+    opts_then_hashed: bool,
     /// generic context and disk text at the last successful warm build
     ok_ctx: BTreeMap<String, String>,
     ok_disk: BTreeMap<String, String>,
@@ -118,7 +122,7 @@ fn explain_output_diff(
         if let Some(src) = &src {
             let unchanged = since.ok_disk.get(src).is_some() && since.ok_disk.get(src) == ed.disk.get(src);
             if since.older_then_hashed.contains(src) {
-                cause = "older-mtime-after-check".into();
+                cause = "check-stored-entry-trusted-by-build".into();
             } else if kind == "map" && since.deleted_maps.contains(k) && warm.get(k).is_none() {
                 cause = "deleted-map-not-regenerated".into();
             } else if unchanged && since.format_changed && kind != "filelist" {
@@ -126,6 +130,10 @@ fn explain_output_diff(
             } else if unchanged && since.ok_ctx.get(src) != ctx_now.get(src) {
                 cause = "generic-definer-not-reemitted".into();
             }
+        }
+        if since.opts_then_hashed && kind != "filelist" {
+            // also covers $std outputs, which have no source in the model
+            cause = "check-stored-entry-trusted-by-build".into();
         }
         causes.push((k.clone(), cause));
     }
@@ -141,6 +149,15 @@ fn explain_output_diff(
     )
 }
 
+/// Development aid: with VERIF_KEEP_TIMEOUT set, the reproducer script of a
+/// timed-out case is written to /verif/.work/c04-timeout-<n>.sh.
+fn keep_for_debug(ws: &Workspace) {
+    if std::env::var_os("VERIF_KEEP_TIMEOUT").is_some() {
+        let name = ws.scratch.path.file_name().map(|x| x.to_string_lossy().into_owned()).unwrap_or_default();
+        let _ = std::fs::write(format!("{}/timeout-{name}.sh", vcore::util::work_root()), ws.script());
+    }
+}
+
 fn diag_lines(r: &CliResult) -> Vec<String> {
     r.diag_multiset().iter().map(|d| d.short()).collect()
 }
@@ -148,6 +165,7 @@ fn diag_lines(r: &CliResult) -> Vec<String> {
 fn one_history(d: &mut Draw, thorough: bool) -> Outcome {
     let gopts = GenOpts {
         max_items: if thorough { 12 } else { 9 },
+        warn_per_mille: 300,
         ..GenOpts::default()
     };
     let pol = EditPolicy {
@@ -190,6 +208,9 @@ fn one_history(d: &mut Draw, thorough: bool) -> Outcome {
                 EditOp::Toml(t) if matches!(t, TomlEdit::FormatIndent | TomlEdit::FormatAlign) => {
                     since.format_changed = true;
                 }
+                EditOp::Toml(t) if t.is_build_option() => {
+                    since.opts_changed = true;
+                }
                 _ => {}
             }
             // any later write of the file with a current mtime ends the older-mtime situation
@@ -209,13 +230,16 @@ fn one_history(d: &mut Draw, thorough: bool) -> Outcome {
         let cmd = if first_cmd {
             [Cmd::Build, Cmd::Check][d.weighted(&[7, 3])]
         } else {
-            [Cmd::Build, Cmd::Check, Cmd::Test][d.weighted(&[6, 4, if p.has_tests() { 1 } else { 0 }])]
+            // warnings are only printed by `check` (and by failing builds)
+            let has_warn = p.modules().iter().any(|m| !p.module(*m).inj.is_empty());
+            [Cmd::Build, Cmd::Check, Cmd::Test][d.weighted(&[6, if has_warn { 7 } else { 4 }, if p.has_tests() { 1 } else { 0 }])]
         };
         if cmd == Cmd::Test {
             // acts on the cache only; its own results are not part of the property
             let r = ws.veryl(&cmd.args());
             if r.timed_out {
-                return Outcome::skip("a command timed out");
+                keep_for_debug(&ws);
+                return Outcome::skip("a command timed out (veryl test)");
             }
             classes.insert("test_step".into());
             steps.push(format!("cmd   veryl test (not compared) exit={:?}", r.code));
@@ -231,7 +255,8 @@ fn one_history(d: &mut Draw, thorough: bool) -> Outcome {
         let warm = ws.veryl(&cmd.args());
         let warm_out = ws.outputs();
         if cold.timed_out || warm.timed_out {
-            return Outcome::skip("a command timed out");
+            keep_for_debug(&ws);
+            return Outcome::skip(format!("a command timed out (veryl {})", cmd.name()));
         }
         steps.push(format!(
             "cmd   veryl {}: exit cold={:?} warm={:?}, restored {:?}, diags {}",
@@ -243,8 +268,11 @@ fn one_history(d: &mut Draw, thorough: bool) -> Outcome {
         ));
         if first_cmd {
             first_cmd = false;
-            // generator acceptance: the fresh project analyses without any diagnostic
-            let clean = warm.code == Some(0) && warm.diags.is_empty() && !warm.panicked;
+            // generator acceptance: the fresh project analyses without errors
+            // (30 % of the projects start with one injected warning, which
+            // makes `check` exit 1)
+            let clean = warm.errors().is_empty() && !warm.panicked && warm.code.is_some()
+                && (warm.code == Some(0) || !warm.warnings().is_empty());
             if !clean && cold.code == warm.code && cold.diag_multiset() == warm.diag_multiset() {
                 let why = warm
                     .diags
@@ -361,6 +389,9 @@ fn one_history(d: &mut Draw, thorough: bool) -> Outcome {
                 if warm.errors().is_empty() {
                     for s in since.older.clone() {
                         since.older_then_hashed.insert(s);
+                    }
+                    if since.opts_changed {
+                        since.opts_then_hashed = true;
                     }
                 }
             }
